@@ -401,3 +401,134 @@ def der_ops(msg, rng, want=12):
         # keep the outer 3-byte list lengths as they are (may now disagree)
         ops.append(("der_" + kind, bytes([msg[0]]) + p24(len(b)) + bytes(b)))
     return ops
+
+
+# ------------------------------------------------------------ DER tree
+def der_nodes(der, base=0, end=None, depth=0, path=(), out=None):
+    """walk definite-length DER: list of (tag, hdr_off, hdr_len, content_len,
+    depth, ancestors) where ancestors is a tuple of node indices"""
+    if out is None:
+        out = []
+    end = len(der) if end is None else end
+    i = base
+    while i < end:
+        if i + 2 > end:
+            break
+        tag = der[i]
+        l0 = der[i + 1]
+        if l0 < 0x80:
+            hl, ln = 2, l0
+        elif l0 in (0x81, 0x82, 0x83) and i + 2 + (l0 & 3) <= end:
+            k = l0 & 3
+            hl, ln = 2 + k, int.from_bytes(der[i + 2:i + 2 + k], "big")
+        else:
+            break
+        if i + hl + ln > end:
+            break
+        idx = len(out)
+        out.append((tag, i, hl, ln, depth, path))
+        constructed = tag & 0x20
+        inner = None
+        if constructed:
+            inner = (i + hl, i + hl + ln)
+        elif tag == 0x03 and ln > 1 and der[i + hl] == 0 and \
+                der[i + hl + 1] == 0x30:
+            inner = (i + hl + 1, i + hl + ln)       # key inside BIT STRING
+        elif tag == 0x04 and ln > 1 and der[i + hl] == 0x30:
+            inner = (i + hl, i + hl + ln)           # extension value
+        if inner and depth < 9:
+            der_nodes(der, inner[0], inner[1], depth + 1, path + (idx,), out)
+        i += hl + ln
+    return out
+
+
+def der_len(n):
+    if n < 0x80:
+        return bytes([n])
+    b = n.to_bytes((n.bit_length() + 7) // 8, "big")
+    return bytes([0x80 | len(b)]) + b
+
+
+def der_replace(der, nodes, idx, new_tlv):
+    """replace node idx by the bytes new_tlv and re-encode the lengths of
+    all its ancestors"""
+    tag, off, hl, ln, depth, path = nodes[idx]
+    out = bytes(der[:off]) + bytes(new_tlv) + bytes(der[off + hl + ln:])
+    delta = len(new_tlv) - (hl + ln)
+    # ancestors from the innermost outwards; offsets before `off` are stable
+    for a in reversed(path):
+        atag, aoff, ahl, aln, _, _ = nodes[a]
+        newlen = aln + delta
+        hdr = bytes([atag]) + der_len(newlen)
+        out = out[:aoff] + hdr + out[aoff + ahl:]
+        delta += len(hdr) - ahl
+    return out
+
+
+def der_tree_ops(msg, rng, full=False):
+    """structure-aware operators on the first certificate of a Certificate
+    message: every TLV emptied / shortened / content-zeroed / duplicated,
+    with all enclosing DER and TLS lengths kept consistent, so the mutant
+    reaches the code that interprets the field"""
+    body = bytes(msg[4:])
+    e = None
+    for i in range(3, min(len(body) - 8, 600)):
+        if body[i + 3] == 0x30 and body[i + 4] in (0x81, 0x82):
+            k = body[i + 4] & 3
+            dl = 2 + k + int.from_bytes(body[i + 5:i + 5 + k], "big")
+            if u24(body, i) == dl and i + 3 + dl <= len(body):
+                e = i
+                break
+    if e is None:
+        return []
+    der = body[e + 3:e + 3 + u24(body, e)]
+    nodes = der_nodes(der)
+    ops = []
+
+    def emit(name, newder):
+        d = len(newder) - len(der)
+        b = bytearray(body)
+        b[e + 3:e + 3 + len(der)] = newder
+        b[e:e + 3] = p24(len(newder))
+        if e >= 3:
+            b[e - 3:e] = p24(max(0, u24(body, e - 3) + d))
+        ops.append((name, bytes([msg[0]]) + p24(len(b)) + bytes(b)))
+
+    TAGN = {0x02: "int", 0x03: "bitstr", 0x04: "octstr", 0x05: "null",
+            0x06: "oid", 0x30: "seq", 0x31: "set", 0x17: "time",
+            0x18: "time", 0x0c: "str", 0x13: "str", 0xa0: "ctx0",
+            0xa3: "ctx3", 0x01: "bool"}
+    order = list(range(len(nodes)))
+    if not full:
+        # all BIT/OCTET STRINGs and the nodes of the key and signature
+        # algorithm are always taken; the rest sampled
+        must = [i for i in order if nodes[i][0] in (0x03, 0x04) and
+                nodes[i][4] <= 3]
+        rest = [i for i in order if i not in must]
+        rng.shuffle(rest)
+        order = must + rest[:10]
+    for i in order:
+        tag, off, hl, ln, depth, path = nodes[i]
+        tn = TAGN.get(tag, "t%02x" % tag)
+        content = der[off + hl:off + hl + ln]
+        where = "d%d" % depth
+        emit("dertree_empty:%s:%s" % (tn, where),
+             der_replace(der, nodes, i, bytes([tag, 0])))
+        if ln >= 1:
+            emit("dertree_trunc1:%s:%s" % (tn, where),
+                 der_replace(der, nodes, i, bytes([tag]) + der_len(ln - 1) +
+                             content[:-1]))
+            emit("dertree_first_ff:%s:%s" % (tn, where),
+                 der_replace(der, nodes, i, bytes([tag]) + der_len(ln) +
+                             b"\xff" + content[1:]))
+        if ln >= 2 and full:
+            emit("dertree_one_byte:%s:%s" % (tn, where),
+                 der_replace(der, nodes, i, bytes([tag, 1]) + content[:1]))
+            emit("dertree_zeroed:%s:%s" % (tn, where),
+                 der_replace(der, nodes, i, bytes([tag]) + der_len(ln) +
+                             bytes(ln)))
+        if full and ln < 64:
+            tlv = der[off:off + hl + ln]
+            emit("dertree_dup:%s:%s" % (tn, where),
+                 der_replace(der, nodes, i, tlv + tlv))
+    return ops
